@@ -116,6 +116,12 @@ Theorem C20_float_fits : forall d, dvalue_ok_float d = true -> fits kBytes_float
 Proof. exact fmt_float_fits_proof. Qed.
 Print Assumptions C20_float_fits.
 
+(* the tight bounds: 26 bytes for a double, 23 for a float (both attained, see the Examples) *)
+Theorem C20_double_float_tight :
+  (forall d, dvalue_ok_double d = true -> fits 26 (fmt_double d)) /\ (forall d, dvalue_ok_float d = true -> fits 23 (fmt_double d)).
+Proof. split; [exact fmt_double_tight|exact fmt_float_tight]. Qed.
+Print Assumptions C20_double_float_tight.
+
 (* (b) the in-place protocol: for every sequence of stream operations whose numbers respect their
        reservation (a), with reservations <= kmax <= capacity: no store outside the buffer, the
        cursor never passes end_, and the bytes handed to the writer followed by the buffer are
